@@ -485,16 +485,62 @@ func (c *Check) hostnameNormalisation() {
 			if v == nil {
 				return
 			}
-			// a request struct: take its hostnames field
+			// a request struct: take its hostnames field (the struct may reach the send through a new helper's parameter
+			// and be built by another new helper)
 			if _, isStruct := v.Type().Underlying().(*types.Struct); isStruct {
-				if ld, isLd := v.(*ssa.UnOp); isLd {
-					if a, isA := ld.X.(*ssa.Alloc); isA {
-						for _, st := range fieldStores(i.Parent(), func(fa *ssa.FieldAddr) bool {
-							return fa.X == ssa.Value(a) && fieldName(fa.X.Type(), fa.Field) == "hostnames"
-						}) {
-							v = st.Val
+				owner := i.Parent()
+				for d := 0; d < 6; d++ {
+					if ld, isLd := v.(*ssa.UnOp); isLd {
+						if a, isA := ld.X.(*ssa.Alloc); isA {
+							if pp := paramOfAlloc(a); pp != nil {
+								v = pp
+								continue
+							}
+							found := false
+							for _, st := range fieldStores(owner, func(fa *ssa.FieldAddr) bool {
+								return fa.X == ssa.Value(a) && fieldName(fa.X.Type(), fa.Field) == "hostnames"
+							}) {
+								v = st.Val
+								found = true
+							}
+							if found {
+								break
+							}
 						}
 					}
+					if pp, isP := v.(*ssa.Parameter); isP {
+						// a helper shared by several entry points: the argument at its call inside this entry point
+						var siteArg ssa.Value
+						eachInstrDeep(fn, func(j ssa.Instruction) {
+							if cj, isCJ := j.(ssa.CallInstruction); isCJ && cj.Common().StaticCallee() == pp.Parent() {
+								if k := paramIdx(pp); k >= 0 && k < len(cj.Common().Args) {
+									siteArg = cj.Common().Args[k]
+									owner = j.Parent()
+								}
+							}
+						})
+						if siteArg != nil {
+							v = siteArg
+							continue
+						}
+						if cv := callerValue(pp); cv != ssa.Value(pp) {
+							v = cv
+							if in, isIn := cv.(ssa.Instruction); isIn {
+								owner = in.Parent()
+							}
+							continue
+						}
+					}
+					if cl, isC := v.(*ssa.Call); isC {
+						if g := newHelperCallee(cl); g != nil {
+							if rs := helperReturns(g, 0); len(rs) == 1 {
+								v = rs[0]
+								owner = g
+								continue
+							}
+						}
+					}
+					break
 				}
 			}
 			if _, isSlice := v.Type().Underlying().(*types.Slice); isSlice {
